@@ -103,6 +103,11 @@ func (w *World) ResolveRenamedFuncs(table map[string]AnchorInfo) []string {
 		keys = append(keys, k)
 	}
 	sort.Strings(keys)
+	pending := map[string][]*ssa.Function{}
+	rawFuncKeys := map[*ssa.Function]string{}
+	for k, f := range byKey {
+		rawFuncKeys[f] = k
+	}
 	for _, old := range keys {
 		if byKey[old] != nil {
 			continue
@@ -156,9 +161,54 @@ func (w *World) ResolveRenamedFuncs(table map[string]AnchorInfo) []string {
 				cands = called
 			}
 		}
+		if len(cands) > 1 {
+			// the candidate whose set of callers is exactly the recorded one
+			var exact []*ssa.Function
+			for _, f := range cands {
+				got := map[string]bool{}
+				for _, c := range callers[f] {
+					got[FuncKey(c)] = true
+				}
+				same := len(got) == len(info.Callers)
+				for _, rc := range info.Callers {
+					if !got[rc] {
+						same = false
+					}
+				}
+				if same {
+					exact = append(exact, f)
+				}
+			}
+			if len(exact) > 0 {
+				cands = exact
+			}
+		}
 		if len(cands) == 1 {
-			funcAlias[FuncKey(cands[0])] = old
-			out = append(out, old+" -> "+FuncKey(cands[0]))
+			if _, taken := funcAlias[rawFuncKeys[cands[0]]]; !taken {
+				funcAlias[rawFuncKeys[cands[0]]] = old
+				out = append(out, old+" -> "+rawFuncKeys[cands[0]])
+				continue
+			}
+		}
+		pending[old] = cands
+	}
+	// candidates taken by an unambiguous rename are not available to the others
+	for changed := true; changed; {
+		changed = false
+		for _, old := range keys {
+			cands := pending[old]
+			var free []*ssa.Function
+			for _, f := range cands {
+				if _, taken := funcAlias[rawFuncKeys[f]]; !taken {
+					free = append(free, f)
+				}
+			}
+			if len(free) == 1 {
+				funcAlias[rawFuncKeys[free[0]]] = old
+				out = append(out, old+" -> "+rawFuncKeys[free[0]])
+				delete(pending, old)
+				changed = true
+			}
 		}
 	}
 	// a second pass is not needed: callers are compared by their current keys, and renamed callers already carry
